@@ -128,9 +128,9 @@ def build_system(fmt, sizes, atoms, bonds, opts):
             keys = range(1000, 1000 + 3 * n, 3)
         else:                       # decreasing node keys: the order of a molecule is its insertion order
             keys = range(n - 1, -1, -1)
-        # 'perm' (PDB only): the nodes are INSERTED in reverse order while the atom ids still increase in the intended order;
-        # the PDB writer lists atoms by atom id, so the written order is the intended one and every CONECT serial must follow it
-        perm = opts.get('atomid') == 'perm' and fmt == 'pdb'
+        # 'perm': the nodes are INSERTED in reverse order while the atom ids still increase in the intended order;
+        # both writers list atoms by atom id (as the topology does), so the written order is the intended one and CONECT must follow it
+        perm = opts.get('atomid') == 'perm'
         plan = [(g + t + 1, key) for t, key in enumerate(keys)]
         g += n
         for gg, key in (reversed(plan) if perm else plan):
